@@ -99,6 +99,8 @@
 (declare-fun cursorNode (Ref) Iface)
 (declare-fun SrcBreakTargetsLoop (Ref) Bool)
 (declare-fun LoopBodyHasContinue (Ref) Bool)
+; the post statement of the loop mentions a name that the loop body declares at its top level (ghost, C01 side condition S3)
+(declare-fun PostUsesBodyScope (Ref) Bool)
 ; go/types facts used by the optimiser's side conditions (abstract)
 (declare-fun objectOf (Ref) Iface)
 (declare-fun TypesIdentical (Iface Iface) Bool)
@@ -115,6 +117,8 @@
 (declare-fun bitand (Int Int) Int)
 ; go/types: the returned expression is absent or the untyped nil (decided by the trusted closure isRetNil)
 (declare-fun RetIsNil (Ref) Bool)
+; the cursor stands on the type expression of an embedded struct field (ghost, C06 side condition D28)
+(declare-fun EmbeddedFieldType (Ref) Bool)
 ; the callee expression of an eta-shaped literal refers to one of the literal's parameters (decided by the trusted rewriter.mentionsParam)
 (declare-fun CalleeMentionsParam (Ref) Bool)
 ; supported subset (C12): abstract; the rules that generate it are the `ghost` clauses of the pass-2 contracts
